@@ -83,7 +83,7 @@ CLAIMED.update({
    note=TB + "v1: the unchecked divisions are assumed honest (see C01); SortPriorities (closure over sort.SliceStable) has a trusted contract.",
    technique=GH2),
  "C17": dict(category="proof",
-   text="State transformers of v1 AddInput/RemoveInput: addInput ensures the channel is registered under the priority (replacing any previous one) with Drained reset; removeInput ensures the priority is gone from the inputs table and from the configured set, so - every input receive being on inputs[q].Channel with q configured - the removed channel is never read again; both leave the in-flight accounting (actual) untouched and re-establish the full discipline invariant (capacity, divider convention), i.e. across any sequence of add/replace/remove/re-add; removePriority (in-place filter) keeps order and removes exactly the priority. Every configured priority is in the priority list at all times (WF clause over the element set of the list; addPriority appends it, removePriority keeps every other element - proved with an existential invariant -, the sort preserves the set). Argued, not proved: 'on return' (the request channels are unbuffered and served by the scheduling goroutine before its next input receive).",
+   text="State transformers of v1 AddInput/RemoveInput: addInput ensures the channel is registered under the priority (replacing any previous one) with Drained reset; removeInput ensures the priority is gone from the inputs table and from the configured set, so - every input receive being on inputs[q].Channel with q configured - the removed channel is never read again; both leave the in-flight accounting (actual) untouched and re-establish the full discipline invariant (capacity, divider convention), i.e. across any sequence of add/replace/remove/re-add; removePriority (in-place filter) keeps order and removes exactly the priority. Every configured priority is in the priority list at all times (WF clause over the element set of the list; addPriority appends it, removePriority keeps every other element - proved with an existential invariant -, the sort preserves the set). The API side: AddInput / RemoveInput send exactly their arguments as the request (ghost copy of the sent request). Argued, not proved: 'on return' (the request channels are unbuffered and served by the scheduling goroutine before its next input receive).",
    design_ref="DESIGN.md §7 C17",
    note=TB + "see C01; hand-off by Go channel semantics.",
    technique=GH2),
